@@ -845,7 +845,7 @@ fn oracle_combo<C: AnsCombo>(rng: &mut Rng, w: u32, s: u32, bps: &[(u32, Vec<u32
         for _ in 0..steps {
             let mi = (rng.next() % 3) as usize;
             let (b, p, cdf) = models[mi].clone();
-            let r = rng.next() % 16;
+            let r = rng.next() % 17;
             if r < 7 {
                 let sym = rng.below(cdf.len() as u128 - 1) as usize;
                 desc.push_str(&format!(" | enc {:x} {:x} {:x} {:x}", b, p, cdf[sym], cdf[sym + 1] - cdf[sym]));
@@ -891,10 +891,50 @@ fn oracle_combo<C: AnsCombo>(rng: &mut Rng, w: u32, s: u32, bps: &[(u32, Vec<u32
                     rep.fail("C09", format!("{} => out-of-support symbol {:x}: result {} / coder changed", desc, sym, o));
                     break;
                 }
+            } else if r == 15 {
+                // batch / reverse / fallible-iterator forms must equal the per-symbol loop (C01),
+                // also when the batch fails part-way (impossible symbol or model error)
+                let k = (rng.next() % 6) as usize;
+                let form = (rng.next() % 6) as u32;
+                let syms: Vec<usize> = (0..k).map(|_| {
+                    let extra = if rng.chance(1, 8) { 1 } else { 0 };
+                    rng.below(cdf.len() as u128 - 1 + extra) as usize
+                }).collect();
+                let err_at = if (form == 2 || form == 3) && k > 0 && rng.chance(1, 3) { Some(rng.below(k as u128) as usize) } else { None };
+                desc.push_str(&format!(" | encs {:x} {:x} {:x} {} {} {}", b, p, form, show_list(cdf.clone()), show_list(syms.iter().map(|&x| x as u128)), err_at.map(|e| hex(e as u128)).unwrap_or("-".into())));
+                let o1 = C::enc_batch(&mut coder, b, p, form, &cdf, &syms, err_at).unwrap();
+                // reference: the per-symbol loop in the order the form prescribes
+                let mut order: Vec<usize> = (0..k).collect();
+                if form == 1 || form == 3 || form == 5 {
+                    order.reverse();
+                }
+                let mut o2 = "ok".to_string();
+                for &i in &order {
+                    if (form == 2 || form == 3) && Some(i) == err_at {
+                        o2 = "modelerr".into();
+                        break;
+                    }
+                    let o = C::enc_sym(&mut twin, b, p, &cdf, syms[i]).unwrap();
+                    if o != "ok" {
+                        o2 = o;
+                        break;
+                    }
+                    ghost.push((mi, syms[i]));
+                }
+                rep.eval("C01");
+                rep.count("C01.batch");
+                if o1 != o2 || (coder.bulk(), coder.state()) != (twin.bulk(), twin.state()) {
+                    rep.fail("C01", format!("{} | raw => batch form returned {} and left ({} {:x}); the per-symbol loop returns {} and leaves ({} {:x})", desc, o1,
+                        show_list(coder.bulk().iter().map(|&x| to_u128(x))), to_u128(coder.state()), o2,
+                        show_list(twin.bulk().iter().map(|&x| to_u128(x))), to_u128(twin.state())));
+                    break;
+                }
             } else if r == 13 {
                 // reload (C01) – export / re-import must be the identity on behaviour
                 let v = coder.clone().into_compressed().unwrap();
                 coder = AnsCoder::from_compressed(v).unwrap();
+                let v = twin.clone().into_compressed().unwrap();
+                twin = AnsCoder::from_compressed(v).unwrap();
                 desc.push_str(" | reload");
                 rep.count("C01.reload");
             } else {
@@ -927,7 +967,7 @@ fn oracle_combo<C: AnsCombo>(rng: &mut Rng, w: u32, s: u32, bps: &[(u32, Vec<u32
                 }
             }
             // C08: inspected coder and twin must stay identical
-            if (coder.bulk(), coder.state()) != (twin.bulk(), twin.state()) && !desc.contains("reload") {
+            if (coder.bulk(), coder.state()) != (twin.bulk(), twin.state()) {
                 rep.fail("C08", format!("{} => inspected coder diverged from uninspected twin", desc));
                 break;
             }
